@@ -63,10 +63,12 @@ func runC20(w *World, r *Report, tier string) {
 				rvv := rvAny(a.Val)
 				if c, ok := rvv.(*ssa.Call); ok && w.callKey(c) == "net.JoinHostPort" {
 					// JoinHostPort(h, p) is "[" + h + "]:" + p when h contains a colon (checked against the row's conditions below)
-					out = append(out, atom{Const: "[", IsC: true})
+					// bracketed only when the host contains a colon: kept symbolic, decided per case of the table
+					out = append(out, atom{Const: "\x00JOIN(", IsC: true})
 					out = append(out, atomsOf(c.Call.Args[0], depth+1)...)
-					out = append(out, atom{Const: "]:", IsC: true})
+					out = append(out, atom{Const: "\x00,", IsC: true})
 					out = append(out, atomsOf(c.Call.Args[1], depth+1)...)
+					out = append(out, atom{Const: "\x00)", IsC: true})
 					parts = append(parts, "")
 					continue
 				}
@@ -98,24 +100,15 @@ func runC20(w *World, r *Report, tier string) {
 			}
 		}
 		form := strings.Join(parts, "+")
+		if usedJoin && form == `"\x00JOIN("+addr+"\x00,"+Itoa(port)+"\x00)"` {
+			form = "JoinHostPort(addr,Itoa(port))"
+		}
 		switch form {
-		case "addr", `addr+":"+Itoa(port)`, `"["+addr+"]:"+Itoa(port)`:
+		case "addr", `addr+":"+Itoa(port)`, `"["+addr+"]:"+Itoa(port)`, "JoinHostPort(addr,Itoa(port))":
 		default:
 			badForm = "a return of ensurePort has the form " + form + ": the given host/port is not kept intact or something other than a port is added (return at " + w.ipos(ret) + ")"
 		}
 		conds := w.pathConds(path)
-		if usedJoin {
-			// net.JoinHostPort brackets the host only if it contains a colon: the row must exclude the colon-free case
-			okJ := false
-			for _, c := range conds {
-				if strings.HasPrefix(c, "eq(0,strings.Count(") && strings.HasSuffix(c, "=false") {
-					okJ = true
-				}
-			}
-			if !okJ {
-				badForm = "net.JoinHostPort is used on a path where the host may have no colon: it would not be bracketed"
-			}
-		}
 		rows = append(rows, row{conds, form})
 	})
 	if err != nil {
@@ -123,46 +116,106 @@ func runC20(w *World, r *Report, tier string) {
 	} else {
 		r.Check(badForm == "" && len(rows) > 0, "R2", "xmpp.ensurePort#returns", w.pos(ep.Pos()), badForm, fmt.Sprintf("%d return path(s), each verbatim / port appended / bracketed+port", len(rows)))
 	}
-	// R4 decision table
-	a := "param:" + addr.Name()
-	hp := fmt.Sprintf(`strings.HasPrefix(%s,"[")`, a)
-	li := func(s string) string { return fmt.Sprintf(`strings.LastIndex(%s,%q)`, a, s) }
-	cnt := fmt.Sprintf(`strings.Count(%s,":")`, a)
-	eq := func(x, y string) string {
-		if x > y {
-			x, y = y, x
+	// R4 decision table, judged case by case: the five cases of the documented table are
+	//   [ prefix, no port after the bracket → addr:port ; [ prefix, port present → addr ;
+	//   no [ prefix: no colon → addr:port ; one colon → addr ; two or more → [addr]:port.
+	// Each return path's conditions select the cases it can serve; in each of them its result must be the required one.
+	{
+		a := "param:" + addr.Name()
+		hpS := fmt.Sprintf(`strings.HasPrefix(%s,"[")`, a)
+		cbS := fmt.Sprintf(`le(strings.LastIndex(%s,":"),strings.LastIndex(%s,"]"))`, a, a)
+		cntS := fmt.Sprintf(`strings.Count(%s,":")`, a)
+		type cell struct {
+			hp, cb bool
+			cnt    int
+			want   string
+			name   string
 		}
-		return fmt.Sprintf("eq(%s,%s)", x, y)
-	}
-	want := []string{
-		fmt.Sprintf(`%s=true ∧ le(%s,%s)=true → addr+":"+Itoa(port)`, hp, li(":"), li("]")),
-		fmt.Sprintf(`%s=true ∧ le(%s,%s)=false → addr`, hp, li(":"), li("]")),
-		fmt.Sprintf(`%s=false ∧ %s=true → addr+":"+Itoa(port)`, hp, eq(cnt, "0")),
-		fmt.Sprintf(`%s=false ∧ %s=false ∧ %s=true → addr`, hp, eq(cnt, "0"), eq(cnt, "1")),
-		fmt.Sprintf(`%s=false ∧ %s=false ∧ %s=false → "["+addr+"]:"+Itoa(port)`, hp, eq(cnt, "0"), eq(cnt, "1")),
-	}
-	var got []string
-	for _, rw := range rows {
-		got = append(got, strings.Join(rw.conds, " ∧ ")+" → "+rw.form)
-	}
-	sort.Strings(got)
-	sort.Strings(want)
-	r.Tables["ensurePort.decision_table"] = got
-	if strings.Join(got, "\n") == strings.Join(want, "\n") {
-		r.Ok("R4", "xmpp.ensurePort#decision-table", "5 rows equal to the documented table")
-	} else {
-		// which rows differ
-		wm := map[string]bool{}
-		for _, s := range want {
-			wm[s] = true
+		cells := []cell{
+			{true, true, 2, `addr+":"+Itoa(port)`, "[…] without port"},
+			{true, false, 3, "addr", "[…]:port"},
+			{false, false, 0, `addr+":"+Itoa(port)`, "no colon"},
+			{false, false, 1, "addr", "host:port"},
+			{false, false, 2, `"["+addr+"]:"+Itoa(port)`, "two colons"},
+			{false, false, 3, `"["+addr+"]:"+Itoa(port)`, "three colons"},
 		}
-		var extra []string
-		for _, s := range got {
-			if !wm[s] {
-				extra = append(extra, s)
+		// holds(cond, cell): true/false, or unknown (third result false) for a condition the table does not speak about
+		holds := func(cond string, cl cell) (bool, bool) {
+			i := strings.LastIndex(cond, "=")
+			body, truth := cond[:i], cond[i+1:] == "true"
+			switch {
+			case body == hpS:
+				return cl.hp == truth, true
+			case body == cbS:
+				if !cl.hp {
+					return true, true // only consulted for bracketed addresses
+				}
+				return cl.cb == truth, true
+			case body == fmt.Sprintf(`strings.Contains(%s,":")`, a):
+				return (cl.cnt >= 1) == truth, true
+			}
+			for _, op := range []string{"eq", "le"} {
+				for k := 0; k <= 3; k++ {
+					ks := fmt.Sprint(k)
+					if body == op+"("+ks+","+cntS+")" || (op == "eq" && body == op+"("+cntS+","+ks+")") {
+						if op == "eq" {
+							return (cl.cnt == k) == truth, true
+						}
+						return (k <= cl.cnt) == truth, true
+					}
+					if op == "le" && body == "le("+cntS+","+ks+")" {
+						return (cl.cnt <= k) == truth, true
+					}
+				}
+			}
+			return false, false
+		}
+		bad := ""
+		served := map[string]bool{}
+		for _, rw := range rows {
+			for _, cl := range cells {
+				consistent := true
+				for _, cond := range rw.conds {
+					h, known := holds(cond, cl)
+					if !known {
+						if strings.Contains(cond, a) {
+							bad = "a condition of ensurePort is outside the documented table: " + cond
+						}
+						continue
+					}
+					if !h {
+						consistent = false
+					}
+				}
+				if !consistent {
+					continue
+				}
+				form := rw.form
+				if form == "JoinHostPort(addr,Itoa(port))" {
+					if cl.cnt == 0 {
+						form = `addr+":"+Itoa(port)`
+					} else {
+						form = `"["+addr+"]:"+Itoa(port)`
+					}
+				}
+				served[cl.name] = true
+				if form != cl.want && bad == "" {
+					bad = fmt.Sprintf("for an address of the kind %q ensurePort returns %s, the documented result is %s", cl.name, form, cl.want)
+				}
 			}
 		}
-		r.Fail("R4", "xmpp.ensurePort#decision-table", w.pos(ep.Pos()), "ensurePort does not implement the documented decision table; unexpected rows: "+strings.Join(extra, " ;; "))
+		for _, cl := range cells {
+			if !served[cl.name] && bad == "" {
+				bad = "no return path serves addresses of the kind " + cl.name
+			}
+		}
+		var got []string
+		for _, rw := range rows {
+			got = append(got, strings.Join(rw.conds, " ∧ ")+" → "+rw.form)
+		}
+		sort.Strings(got)
+		r.Tables["ensurePort.decision_table"] = got
+		r.Check(bad == "", "R4", "xmpp.ensurePort#decision-table", w.pos(ep.Pos()), "ensurePort does not implement the documented decision table: "+bad, fmt.Sprintf("%d return path(s) agree with the documented result in each of the 5 cases they can serve", len(rows)))
 	}
 
 	// R1 / R3 constructors (path-based, helpers walked through)
@@ -263,17 +316,30 @@ func runC20(w *World, r *Report, tier string) {
 				badR1 = "the address is not normalised with ensurePort"
 				return
 			}
-			if !isCfgAddr(w.nfOn(ep.Call.Args[0], path)) {
-				badR1 = "ensurePort is not applied to config.Address"
+			argNF := w.nfOn(ep.Call.Args[0], path)
+			viaTransportCopy := false
+			if !isCfgAddr(argNF) {
+				// the address read back from the transport's own copy of the configuration (made earlier on the path)
+				if u, ok := rvI(ep.Call.Args[0], epIdx).(*ssa.UnOp); ok {
+					if fa, ok := u.X.(*ssa.FieldAddr); ok && fieldOfAddr(fa) == fAddr && strings.HasSuffix(w.typeStr(rootOf(fa).Type()), "xmpp.XMPPTransport") {
+						viaTransportCopy = true
+					}
+				}
+				if !viaTransportCopy {
+					badR1 = "ensurePort is not applied to config.Address"
+				}
 			}
 			if p, isC := intConst(rvI(ep.Call.Args[1], epIdx)); !isC || p != 5222 {
 				badR1 = "the default port is not 5222"
 			}
 			storeIdx, copyIdx := -1, -1
+			storeIntoTransport := false
 			for i, in := range path {
 				if st, ok := in.(*ssa.Store); ok {
 					if fa, ok := rvI(st.Addr, i).(*ssa.FieldAddr); ok && fieldOfAddr(fa) == fAddr && rvI(st.Val, i) == ssa.Value(ep) {
 						storeIdx = i
+						// normalised in place, in the transport's own copy of the configuration
+						storeIntoTransport = strings.HasSuffix(w.typeStr(rootOf(fa).Type()), "xmpp.XMPPTransport")
 					}
 					// copy of the configuration into the transport literal
 					if fa, ok := st.Addr.(*ssa.FieldAddr); ok && fieldOfAddr(fa).Name() == "Config" && strings.HasSuffix(w.typeStr(fa.X.Type()), "xmpp.XMPPTransport") {
@@ -291,8 +357,12 @@ func runC20(w *World, r *Report, tier string) {
 				badR1 = "the normalised address is not stored into the configuration"
 			} else if copyIdx < 0 {
 				badR1 = "the transport is not built from the (normalised) configuration"
-			} else if copyIdx < storeIdx {
+			} else if viaTransportCopy && copyIdx > epIdx {
+				badR1 = "ensurePort reads the transport's address before the configuration has been copied into it"
+			} else if copyIdx < storeIdx && !storeIntoTransport {
 				badR1 = "the configuration is copied into the transport before its address is normalised"
+			} else if copyIdx > storeIdx && storeIntoTransport {
+				badR1 = "the normalised address is overwritten by the copy of the configuration"
 			}
 		})
 		if errW != nil {
